@@ -311,6 +311,8 @@ def gen_pipes14(r):
         for i in range(n):
             mem = r.choice([None, None, "0", "0.0", r.choice(NUMS)])
             ops.append({"par": par[i], "segs": [[r.choice(NUMS), r.choice(LAWS), mem, r.choice(NUMS)]]})
+            if r.random() < 0.2:
+                ops[-1]["law_as_callable"] = True
         pipes.append({"prio": r.choice(PRIOS), "at": t, "ops": ops})
     return pipes
 
@@ -372,6 +374,10 @@ def run_w2r(scn):
         scn["_text"] = text
     except Violation as v:
         out["violation"] = v.to_json()
+    except Discard:
+        raise
+    except Exception as e:  # noqa: BLE001 - a valid workload that cannot be written / read back
+        out["violation"] = Violation("C14.raises.write_read", {"exc": repr(e)[:300]}).to_json()
     out["sig"] = digest([tps, pipes])
     return out
 
@@ -420,6 +426,10 @@ def run_r2w(scn):
                     raise Violation("C14.rewrite_cell", {"row": k, "column": col, "in": ra[col], "out": rb[col]})
     except Violation as v:
         out["violation"] = v.to_json()
+    except Discard:
+        raise
+    except Exception as e:  # noqa: BLE001 - a valid workload that cannot be written / read back
+        out["violation"] = Violation("C14.raises.read_write", {"exc": repr(e)[:300]}).to_json()
     out["sig"] = digest([tps, pipes])
     return out
 
